@@ -165,7 +165,32 @@ pub fn apply(u: &Uni, s: &mut Sim, ev: Ev, rep: &mut Report, hist: &[Ev]) -> boo
 pub fn digest(s: &Sim) -> Hash {
     let snap = s.n.routing.blockchain_sync_state.verif_snapshot();
     let o = s.n.obs();
-    let q = (s.n.q_verify.len(), s.n.q_consensus.len(), s.n.q_routing.len());
+    // the contents of the internal channels, not just their lengths: two states that differ in
+    // which block is waiting where have different futures
+    let q = (
+        s.n.q_verify
+            .iter()
+            .map(|r| match r {
+                saito_core::core::verification_thread::VerifyRequest::Block(_, p, h, _) => format!("{}:{}", p, hx(&h[..4])),
+                _ => "t".into(),
+            })
+            .collect::<Vec<_>>(),
+        s.n.q_consensus
+            .iter()
+            .map(|r| match r {
+                saito_core::core::consensus_thread::ConsensusEvent::BlockFetched { peer_index, block } => format!("{}:{}", peer_index, hx(&block.hash[..4])),
+                _ => "t".into(),
+            })
+            .collect::<Vec<_>>(),
+        s.n.q_routing
+            .iter()
+            .map(|r| match r {
+                saito_core::core::routing_thread::RoutingEvent::BlockchainUpdated(h) => format!("u{}", hx(&h[..4])),
+                saito_core::core::routing_thread::RoutingEvent::BlockFetchRequest(p, h, _) => format!("f{}:{}", p, hx(&h[..4])),
+                saito_core::core::routing_thread::RoutingEvent::BlockchainRequest(p) => format!("r{}", p),
+            })
+            .collect::<Vec<_>>(),
+    );
     saito_core::core::util::crypto::hash(format!("{:?}|{:?}|{:?}|{:?}|{:?}|{:?}", snap, o.tip_hash, o.blocks, o.pool_blocks, q, s.inflight).as_bytes())
 }
 
